@@ -67,6 +67,54 @@ def run(ctx, rep):
                           "the tail truncation is reachable outside `enabled && (UnexpectedEof | zero tail)`", where=g.where(n))
     rep.floor("R10.1", "recovery set_len sites", len(M.set_len), 1)
 
+    # ---------------- R10.7 -------------------------------------------------------------
+    rep.rule("R10.7", "completeness of the tolerated-error table: once a decode error is known to be UnexpectedEof, or the tail has been read "
+                      "up to EOF without a non-zero byte, open refuses (returns Err) only because truncation is disabled or because a later "
+                      "I/O call failed - no other predicate (length of the tail, size of the record, position in the chunk) may turn a torn "
+                      "or zero tail of the newest chunk into a refusal")
+    dec_set = set(M.decodes)
+    sl_set = set(M.set_len)
+
+    def step7(ms, pi, qi, learn):
+        pend, notr, eof, reached, nonzero, fresh = ms
+        if P.gnode(pi) in sl_set:
+            pend = False
+        for f in M.dec_out:
+            if f(pi, qi, learn) == "err":
+                pend, notr, eof, reached, nonzero, fresh = True, False, False, False, False, False
+        for o, v in norm_learn(learn):
+            fl = M.fact_flags(o, v)
+            if "no_trunc" in fl:
+                notr = True
+            if "eof" in fl:
+                eof = True
+            if "eof_reached" in fl:
+                reached = True
+            if "nonzero" in fl:
+                nonzero = True
+            cn = origin_call(o)
+            if pend and cn is not None and v in ("Err", "Break") and cn not in dec_set and cn not in g.callee_inst:
+                fresh = True
+        return (pend, notr, eof, reached, nonzero, fresh)
+    seen7 = run_monitor(P, (False, False, False, False, False, False), step7)
+    bad7 = None
+    n_err_exits = 0
+    for (pi, ms0, ms) in finals(P, seen7, step7):
+        if P.gnode(pi) in g.exits and ms[0] and exit_is_err(P, pi):
+            n_err_exits += 1
+            pend, notr, eof, reached, nonzero, fresh = ms
+            if (eof or (reached and not nonzero)) and not notr and not fresh:
+                bad7 = (pi, ms0, "UnexpectedEof" if eof else "zero tail")
+    if bad7:
+        rep.violation("R10.7", "open|tolerated-tail-refused:%s" % bad7[2], "Op(open) Err return after a tolerated decode error",
+                      "open can return Err for a decode error already classified as %s although truncation was not found disabled and no "
+                      "further I/O call failed: some additional condition refuses a torn/zero tail that must be recovered" % bad7[2],
+                      where=g.where(P.gnode(bad7[0])), path=describe_path(P, [k[0] for k in path_to(seen7, (bad7[0], bad7[1]))]))
+    else:
+        rep.ok("R10.7", "refusals after a decode error", "%d Err-exit state(s) with a pending decode error; each has truncation disabled, a "
+               "non-zero byte, an unclassified error or a failed I/O call" % n_err_exits, where=g.where(g.entry))
+    rep.floor("R10.7", "Err exits of open with a pending decode error", n_err_exits, 3)
+
     # ---------------- R10.2 -------------------------------------------------------------
     for n in M.set_len:
         a = list(event_args(g, n))
